@@ -244,6 +244,11 @@ def _scans(ctx):
     ctx.add(core.decided('C26/frozen/parameters-assigned-only-in-__init__', len(frozen) == 2, repr(frozen), kind='scan'))
 
 
+def native_witness(ctx):
+    """concrete search on the real code, usable when the contracts no longer apply to a changed source (vc/check.py)"""
+    return core.run_native(open(os.path.join(os.path.dirname(__file__), 'native', 'c26_replay.py')).read(), {'skip_kinds': ['isolation']})
+
+
 def build(ctx):
     cx = ClassIndex([PATH])
     inl = Inliner(ctx, cx, calls=helper_models(), types={'k': 'U', 'v': 'U'}, shared=['tlast', 'PUT', 'owner', 'nload', 'me', 'put_fresh'])
